@@ -92,7 +92,7 @@ func onGrid(t time.Time, interval, offset time.Duration) bool {
 }
 
 func (c18) Run(e *Env) {
-	e.ProbeDecl("regime-bubble", "regime-mock", "slow-consumer", "jump-over-several-intervals", "step-lands-on-boundary", "step-1ns-before-boundary", "offset-beyond-interval", "sub-second-interval", "non-round-interval", "start-on-boundary", "backend-attached")
+	e.ProbeDecl("regime-bubble", "regime-mock", "slow-consumer", "jump-over-several-intervals", "step-lands-on-boundary", "step-1ns-before-boundary", "offset-beyond-interval", "sub-second-interval", "non-round-interval", "start-on-boundary", "backend-attached", "start-before-unix-epoch", "start-beyond-int64-nanoseconds")
 	intervals := []time.Duration{time.Millisecond, 250 * time.Millisecond, 333 * time.Millisecond, time.Second, 1500 * time.Millisecond, 2500 * time.Millisecond, 7 * time.Second, 10 * time.Second, 90 * time.Second, time.Hour}
 	interval := intervals[e.Draw(len(intervals))]
 	if interval < time.Second {
@@ -124,7 +124,7 @@ func (c18) Run(e *Env) {
 		e.Probe("start-on-boundary")
 	}
 	mockRegime := e.Bool()
-	stalls := !mockRegime && e.Chance(1, 3)
+	stalls := e.Chance(1, 3)
 	proc := &c18Proc{now: time.Now}
 	if stalls {
 		proc.gate = NewGate("flush")
@@ -132,7 +132,26 @@ func (c18) Run(e *Env) {
 	ctx, cancel := context.WithCancel(context.Background())
 	var mock *clock.Mock
 	start := time.Now()
+	shiftedEpoch := false
 	if mockRegime {
+		// the injected clock may read anything: also instants before the Unix epoch and beyond the
+		// range of int64 nanoseconds since it (what the bubble clock reads is added, so that the
+		// position relative to the grid stays drawn from the tape)
+		sinceEpoch := start.Sub(time.Date(2000, 1, 1, 0, 0, 0, 0, time.UTC))
+		shiftedEpoch = true
+		switch e.Draw(6) {
+		case 1:
+			start = time.Date(1969, 7, 20, 20, 17, 40, 0, time.UTC).Add(sinceEpoch)
+			e.Probe("start-before-unix-epoch")
+		case 2:
+			start = time.Date(2300, 1, 1, 0, 0, 0, 0, time.UTC).Add(sinceEpoch)
+			e.Probe("start-beyond-int64-nanoseconds")
+		case 3:
+			start = time.Date(1, 1, 1, 0, 0, 0, 0, time.UTC).Add(sinceEpoch)
+			e.Probe("start-before-unix-epoch")
+		default:
+			shiftedEpoch = false
+		}
 		mock = clock.NewMock(start)
 		ctx = clock.Context(ctx, mock)
 		proc.now = mock.Now
@@ -185,7 +204,14 @@ func (c18) Run(e *Env) {
 			proc.mu.Lock()
 			f := proc.flushes[checked]
 			proc.mu.Unlock()
-			if checked == 0 {
+			if checked == 0 && shiftedEpoch {
+				// the flusher takes its start-up time from the process clock (time.Now), not from the
+				// injected one: with an injected clock of another epoch the first elapsed time says
+				// nothing. The first flush is then placed by the clock reading when it ran.
+				// It is taken to be for the first boundary after start-up (the only one the statement
+				// allows); the later flushes' elapsed times are checked against that.
+				tick = firstBoundary
+			} else if checked == 0 {
 				tick = start.Add(f.interval)
 				if tick.Sub(start) > interval || !tick.After(start) {
 					e.Failf("C18/first-flush-late", "first flush is for time start+%v; it must fall within one interval (%v) after start-up (offset %v)", f.interval, interval, offset)
